@@ -18,5 +18,10 @@ func Registry() []*Spec {
 		s.Property, s.Asserts = pa.prop, pa.asserts
 		add(s)
 	}
+	// ---- C03: all front-ends agree, however the input is chunked
+	add(Spec{Property: "C03", Name: "VerifC03_Chunked", Pkg: "asm",
+		Quick: map[string]int{"N": 3}, Thorough: map[string]int{"N": 4, "ALLCOMP": 1},
+		Covers: []string{"valid", "invalid"}, UnitDepth: 3,
+		Note: "every byte string of length <= N; reader variants behind a chunking reader (every single split point and byte-by-byte; thorough: every composition); oj.Parse vs ParseReader, Tokenizer+Builder, Tokenizer.Load+Builder, gen.Parser(+Reader)+Simplify, Validator(+Reader), and sen.Parser for valid JSON"})
 	return r
 }
